@@ -34,6 +34,10 @@ def _region(ctx, family):
         if family == "quad4x2":
             m = tiny_mesh("quad4x2")
             return m, fem.RegionQuad(m)
+        if family == "quad4x2_gl2":
+            # 3 x 3 Gauss points: NON-uniform weights (5/9, 8/9): weighted and plain means differ
+            m = tiny_mesh("quad4x2")
+            return m, fem.RegionQuad(m, quadrature=fem.GaussLegendre(order=2, dim=2))
         if family == "tri3":
             m = tiny_mesh("tri3")
             return m, fem.RegionTriangle(m, quadrature=fem.TriangleQuadrature(order=2))  # a sufficient rule (the default 1-point rule cannot carry a linear field)
@@ -97,9 +101,13 @@ def case_extrapolate(ctx, family):
     for c in range(nc):
         for q_ in range(nq):
             vals[0, q_, c] = sum(h[a, q_, 0] * U[m.cells[c, a]] for a in range(m.cells.shape[1]))
-    out = fem.tools.extrapolate(vals, region, average=True)
-    ctx.equal("extrapolation_reproduces_multilinear_nodal_field", np.asarray(out).reshape(-1), U, tol=1e-9)
+    if nq == m.cells.shape[1]:
+        # (the plain extrapolation needs as many quadrature points as cell points; with other rules only mean=True is offered)
+        out = fem.tools.extrapolate(vals, region, average=True)
+        ctx.equal("extrapolation_reproduces_multilinear_nodal_field", np.asarray(out).reshape(-1), U, tol=1e-9)
     # mean=True: every point of a cell gets the weighted quadrature mean; averaged over attached cells
+    # (arbitrary values at the quadrature points: for a multilinear field a plain and a weighted mean coincide by symmetry)
+    vals = ctx.array("val", (1, nq, nc), -1, 1)
     outm = fem.tools.extrapolate(vals, region, average=True, mean=True)
     w = region.quadrature.weights
     cm = [sum(vals[0, q_, c] * float(w[q_]) for q_ in range(nq)) / float(w.sum()) for c in range(nc)]
@@ -264,6 +272,8 @@ def case_force_moment(ctx, dim):
         bnd = fem.Boundary(field[0], mask=mask)
     for k, f in enumerate(field.fields):
         f.values = ctx.array("u%d" % k, f.values.shape, -1, 1)
+    X0 = np.array(m.points, dtype=float, copy=True)
+    m.points = ctx.const_array(m.points)  # (an object array in symbolic mode: in-place updates by the library then stay symbolic)
     n = sum(f.values.size for f in field.fields)
     r = ctx.array("r", (n,), -2, 2)
     fsum = fem.tools.force(field, r, bnd)
@@ -271,7 +281,10 @@ def case_force_moment(ctx, dim):
     ctx.equal("force_is_sum_of_nodal_forces_over_boundary_points", fsum, np.array([sum(r[dim * p + i] for p in pts) for i in range(dim)], dtype=object if ctx.sym else float))
     cp = ctx.array("cp", (3,), -1, 1)
     mom = fem.tools.moment(field, r, bnd, centerpoint=cp)
-    X = m.points
+    mom_again = fem.tools.moment(field, r, bnd, centerpoint=cp)  # a second evaluation sees the same mesh
+    ctx.equal("moment_is_repeatable", np.asarray(mom_again).reshape(-1), np.asarray(mom).reshape(-1), tol=1e-12)
+    ctx.equal("mesh_points_are_not_modified_by_the_evaluation", np.asarray(m.points), ctx.const_array(X0) if ctx.sym else X0, tol=1e-12)
+    X = X0
     u = np.asarray(field[0].values)
     if dim == 3:
         exp = np.zeros(3, dtype=object if ctx.sym else float)
@@ -330,6 +343,8 @@ def cases(tier):
     out.append(("project", case_project, {"family": "tri3", "shape": [2], "explicit_dV": True}))
     out.append(("extrapolate", case_extrapolate, {"family": "quad4x2"}))
     out.append(("extrapolate", case_extrapolate, {"family": "hex8"}))
+    out.append(("extrapolate", case_extrapolate, {"family": "quad4x2_gl2"}))
+    out.append(("topoints", case_topoints, {"family": "quad4x2_gl2"}))
     out.append(("topoints", case_topoints, {"family": "quad4x2"}))
     out.append(("topoints", case_topoints, {"family": "hex8"}))
     out.append(("stresses", case_stresses, {"family": "hex8", "kind": "Field"}))
